@@ -158,3 +158,34 @@ Qed.
 Lemma sample_index_outside :
   sample_index_of (39 # 2) = Some 10 /\ sample_index_of (-(21 # 2)) = Some (-1) /\ sample_index_of (200 # 1) = None.
 Proof. vm_compute. repeat split. Qed.
+
+(** * update(): fmod and the two adjustments, in exact arithmetic *)
+Lemma floor_atom (y : Q) : exists a : Q, a = inject_Z (Qfloor y) /\ (a <= y)%Q /\ (y < a + 1)%Q.
+Proof. exists (inject_Z (Qfloor y)). split; [reflexivity|]. split; [apply Qfloor_le|].
+  pose proof (Qlt_floor y) as H. rewrite inject_Z_plus in H. exact H. Qed.
+
+Lemma csw_range (x : Q) : (0 <= csw_of x)%Q /\ (csw_of x < 10)%Q.
+Proof. unfold csw_of, fmod_trunc, samples_per_symbol.
+  change (inject_Z 10) with (10 # 1)%Q.
+  destruct (Qle_bool 0 x) eqn:S.
+  - apply Qle_bool_iff in S. destruct (floor_atom (x / (10 # 1))) as [a [Ea [L U]]].
+    rewrite inject_Z_mult, <- Ea. change (inject_Z 10) with (10 # 1)%Q.
+    unfold Qdiv in L, U. change (/ (10 # 1))%Q with (1 # 10)%Q in L, U.
+    set (c := (x - a * (10 # 1))%Q).
+    assert (C0 : (0 <= c)%Q) by (unfold c; lra). assert (C1 : (c < 10 # 1)%Q) by (unfold c; lra).
+    destruct (Qle_bool 0 c) eqn:S0.
+    + destruct (Qle_bool (10 # 1) c) eqn:S1; [apply Qle_bool_iff in S1; lra | split; lra].
+    + exfalso. apply Qle_bool_iff in C0. rewrite C0 in S0. discriminate.
+  - assert (N : (x < 0)%Q). { apply Qnot_le_lt. intro C. apply Qle_bool_iff in C. rewrite C in S. discriminate. }
+    destruct (floor_atom (- x / (10 # 1))) as [a [Ea [L U]]].
+    rewrite inject_Z_mult, inject_Z_opp, <- Ea. change (inject_Z 10) with (10 # 1)%Q.
+    unfold Qdiv in L, U. change (/ (10 # 1))%Q with (1 # 10)%Q in L, U.
+    set (c := (x - - a * (10 # 1))%Q).
+    assert (C0 : (-(10 # 1) < x - - a * (10 # 1))%Q) by (clear -L U; lra). assert (C1 : (x - - a * (10 # 1) <= 0)%Q) by (clear -L U; lra). fold c in C0, C1.
+    destruct (Qle_bool 0 c) eqn:S0.
+    + apply Qle_bool_iff in S0. destruct (Qle_bool (10 # 1) c) eqn:S1; [apply Qle_bool_iff in S1; lra | split; lra].
+    + assert (N0 : (c < 0)%Q) by (apply Qnot_le_lt; intro C; apply Qle_bool_iff in C; rewrite C in S0; discriminate). split; lra.
+Qed.
+
+Lemma sample_index_update0_range (x : Q) : exists s, sample_index_update0 x = Some s /\ 0 <= s <= 9.
+Proof. unfold sample_index_update0. destruct (csw_range x) as [L U]. apply sample_index_in_range_lemma; lra. Qed.
